@@ -75,7 +75,7 @@ func main() {
 }
 
 func c15(c *Ctx) {
-	c.Rule = "upload sessions: 1..4 files (sizes 1 byte .. 3 chunk sizes, chunk sizes 1/7/64/4096, names and alarm ids over arbitrary bytes incl. 30 31 63 64), 0x1210 / optional 0x1211 / chunks / 0x1212 (+ resend and a second 0x1212 when tiles were withheld), all chunk orders for <= 4 chunks (exhaustive), duplicates before and after completion, five dialects (HLJ length-prefixed chunk header), both header versions, non-uniform splits (random cut points) with a second 0x1210 in mid-session, file names of every length up to the header limits; a zero-length chunk before a 0x1212 (known finding), a 0x1212 for a never announced file after a real one (known finding), names with NUL bytes in the middle (normal uploads, direct oracle), NUL-ended file names (correspondence only), 126..255 single-byte gaps (0x9212 bodies over 1023 bytes: correspondence of the bytes only); each stream fed unit by unit, coalesced into one read, with every 1-cut (short streams), byte by byte (short streams) and random k-cuts; plus malformed streams (garbage, truncated frames, unknown ids, chunks of unknown files, bad 0x1210 bodies) for the correspondence. A case is non-trivial when the stream holds at least one chunk and one control frame; distinct = distinct request lines"
+	c.Rule = "upload sessions: 1..4 files (sizes 1 byte .. 3 chunk sizes, chunk sizes 1/7/64/4096, names and alarm ids over arbitrary bytes incl. 30 31 63 64), 0x1210 / optional 0x1211 / chunks / 0x1212 (+ resend and a second 0x1212 when tiles were withheld), all chunk orders for <= 4 chunks (exhaustive), duplicates before and after completion, five dialects (HLJ length-prefixed chunk header), both header versions, non-uniform splits (random cut points) with a second 0x1210 in mid-session, file names of every length up to the header limits; a zero-length chunk before a 0x1212 (known finding), a 0x1212 for a never announced file after a real one (known finding), names with NUL bytes in the middle (normal uploads, direct oracle), NUL-ended file names (direct oracle: known finding), 126..255 single-byte gaps (0x9212 bodies over 1023 bytes: correspondence of the bytes only); each stream fed unit by unit, coalesced into one read, with every 1-cut (short streams), byte by byte (short streams) and random k-cuts; plus malformed streams (garbage, truncated frames, unknown ids, chunks of unknown files, bad 0x1210 bodies) for the correspondence. A case is non-trivial when the stream holds at least one chunk and one control frame; distinct = distinct request lines"
 	rng := c.Rng
 
 	randName := func(d int, i int) []byte {
@@ -579,46 +579,76 @@ func c15(c *Ctx) {
 		}
 	}
 
-	// (2e) a 0x1212 for a file that was never announced, after a 0x1212 of a real file that left a retransmit list:
-	// the handler answers with the list it still holds - the ranges of ANOTHER file (finding C15/1212-unknown-file)
+	// (2e) a 0x1212 for a file that was never announced: (i) after a 0x1212 of a real file that left a retransmit list -
+	// the handler answers with the list it still holds, the ranges of ANOTHER file; (ii) as the first 0x1212 of the
+	// connection - the handler answers "complete, nothing to retransmit" for a file it never saw.  Judged on every 0x9212
+	// frame on the wire that names the unknown file, however many frames came back (finding C15/1212-unknown-file)
 	for _, d := range AttDialects {
-		s := newSession(1, []int{10}, []int{5})
-		s.d = d
-		s.files[0].name = []byte("real.bin")
-		ghost := []byte("ghost.bin")
-		u1212 := ctrl(s, 0x1212, 0)
-		ghost1212 := Frame808(0x1212, s.v2019, s.bcd, 77, Body1211(ghost, 0, 4))
-		segs := [][]byte{ctrl(s, 0x1210, 0).bytes, chunk(s, 0, 0).bytes, u1212.bytes, ghost1212}
-		req := AttRequest(d, segs)
-		res := AttRun(d, segs, nil)
-		c.Case(req, AttCanon(res), true)
-		c.Count("1212-unknown-file")
-		frames, _ := SplitFrames(res.Wire)
-		if len(frames) == 3 {
-			if _, _, _, _, body, ok := Parse808(frames[2]); ok {
-				if nm, _, result, _, list, ok2 := Ref9212(body); ok2 && (result != 0 || len(list) > 0) {
+		for variant := 0; variant < 2; variant++ {
+			s := newSession(1, []int{10}, []int{5})
+			s.d = d
+			s.files[0].name = []byte("real.bin")
+			ghost := []byte("ghost.bin")
+			ghost1212 := Frame808(0x1212, s.v2019, s.bcd, 77, Body1211(ghost, 0, 4))
+			segs := [][]byte{ctrl(s, 0x1210, 0).bytes, chunk(s, 0, 0).bytes}
+			if variant == 0 {
+				segs = append(segs, ctrl(s, 0x1212, 0).bytes)
+			}
+			segs = append(segs, ghost1212)
+			req := AttRequest(d, segs)
+			res := AttRun(d, segs, nil)
+			c.Case(req, AttCanon(res), true)
+			c.Count("1212-unknown-file")
+			frames, _ := SplitFrames(res.Wire)
+			for _, fr := range frames {
+				id, _, _, _, body, ok := Parse808(fr)
+				if !ok || id != 0x9212 {
+					continue
+				}
+				if nm, _, result, _, list, ok2 := Ref9212(body); ok2 && bytes.Equal(nm, ghost) {
 					c.Violate(Violation{Signature: "C15/1212-unknown-file",
-						What:  "the completion report of a file that was never announced is answered with the retransmit ranges of another file",
+						What:  "the completion report of a file that was never announced is answered as if the server knew the file",
 						Input: req, Observed: fmt.Sprintf("0x9212 for %q: result %d, ranges %s", nm, result, AttSegsStr(list)),
-						Required: "no ranges of another file (the server knows nothing about this file)"})
+						Required: "no completion response for a file the connection never announced (neither another file's ranges nor 'complete')"})
+					break
 				}
 			}
 		}
 	}
 
-	// (2f) file names with a NUL byte at an end: the chunk header's name field is trimmed on both sides, so the chunk
-	// names another file than the announcement did (correspondence only: such names are outside the property's domain)
+	// (2f) file names with a NUL byte at an end, announced in 0x1210 and sent in the chunk headers as announced: the
+	// header's name field is trimmed on both sides (every dialect, also the length-prefixed HLJ field), so the chunk names
+	// another file, the session aborts and the file is never reassembled.  Direct oracle = the property: the upload
+	// completes with the original content and every control frame is answered (finding C15/nul-ended-name; in the fixed
+	// 50-byte field a TRAILING NUL cannot be told from the padding - a limit of the format, reported all the same)
 	for _, d := range AttDialects {
 		for _, nm := range [][]byte{{0, 'a', 'b'}, {'a', 'b', 0}, {0, 'a', 0}, {0}, {0, 0, 'x', 'y', 'z', 0, 0}} {
 			s := newSession(1, []int{6}, []int{3})
 			s.d = d
 			s.files[0].name = nm
 			segs := [][]byte{ctrl(s, 0x1210, 0).bytes, ctrl(s, 0x1211, 0).bytes, chunk(s, 0, 1).bytes, chunk(s, 0, 0).bytes, ctrl(s, 0x1212, 0).bytes}
+			req := AttRequest(d, segs)
 			res := AttRun(d, segs, nil)
-			c.Case(AttRequest(d, segs), AttCanon(res), true)
+			c.Case(req, AttCanon(res), true)
 			c.Count("nul-ended-name")
 			if res.Panic != "" {
-				c.Violate(Violation{Signature: "C15/panic", What: "a NUL-ended file name made connection.run panic", Input: AttRequest(d, segs), Observed: res.Panic, Required: "no panic"})
+				c.Violate(Violation{Signature: "C15/panic", What: "a NUL-ended file name made connection.run panic", Input: req, Observed: res.Panic, Required: "no panic"})
+				continue
+			}
+			done := false
+			if n := len(res.Events); n > 0 {
+				for _, f := range res.Events[n-1].Files {
+					if f.Name == string(nm) && f.CurrentSize == f.FileSize && bytes.Equal(f.Body, s.files[0].content) {
+						done = true
+					}
+				}
+			}
+			frames, _ := SplitFrames(res.Wire)
+			if !done || len(frames) != 3 || len(res.Events) != len(segs)+1 {
+				c.Violate(Violation{Signature: "C15/nul-ended-name",
+					What:  "a file announced under a name with a NUL byte at an end is never reassembled: its chunk headers are trimmed to another name",
+					Input: req, Observed: fmt.Sprintf("%d events, %d answers, file complete with its content: %v", len(res.Events), len(frames), done),
+					Required: fmt.Sprintf("%d events, 3 answers, the file complete with its %d original bytes", len(segs)+1, len(s.files[0].content))})
 			}
 		}
 	}
